@@ -1,7 +1,7 @@
 #!/bin/bash
 # Run once after a fresh restore: build the harness from files on disk only.
 set -e
-cd /verif
+cd "$(dirname "$0")"
 . ./env.sh
 mkdir -p bin evidence replay
 go build -o bin/vcheck ./cmd/vcheck
